@@ -13,4 +13,7 @@ def allCerts : List Bool := Dassh.Gen.C07T2.certs ++ Dassh.Gen.C07T3.certs ++ Da
 
 theorem all_ok : allCerts.all (· = true) = true := by
   simp only [allCerts, List.all_append, Bool.and_self, Dassh.Gen.C07T2.certs_ok, Dassh.Gen.C07T3.certs_ok, Dassh.Gen.C07T4.certs_ok, Dassh.Gen.C07T5.certs_ok, Dassh.Gen.C07T6.certs_ok]
+
+def AllAutos : Prop := Dassh.Gen.C07T2.Autos ∧ Dassh.Gen.C07T3.Autos ∧ Dassh.Gen.C07T4.Autos ∧ Dassh.Gen.C07T5.Autos ∧ Dassh.Gen.C07T6.Autos
+theorem all_autos : AllAutos := ⟨Dassh.Gen.C07T2.autos, Dassh.Gen.C07T3.autos, Dassh.Gen.C07T4.autos, Dassh.Gen.C07T5.autos, Dassh.Gen.C07T6.autos⟩
 end Dassh.Gen.C07All
